@@ -75,10 +75,10 @@ def main():
         json.dump({"results": run_cases(cases)}, open(sys.argv[2], "w"))
         return
     workers = min(workers, len(cases))
-    # whole groups stay in one worker (compiled functions are not shared anyway); round-robin by group id
+    # round-robin (every run compiles its own functions anyway)
     chunks = [[] for _ in range(workers)]
     for i, c in enumerate(cases):
-        chunks[c.get("group", i) % workers].append(i)
+        chunks[i % workers].append(i)
     procs = []
     for w, idxs in enumerate(chunks):
         if not idxs:
